@@ -5,3 +5,4 @@ import NmfuModel.Expr
 import NmfuModel.Mach
 import NmfuModel.Parse
 import NmfuModel.Rt
+import NmfuModel.NoSpin
